@@ -380,11 +380,11 @@ def oracle_relay(r):
     return None
 
 
-def run_under_pty(argv, env, timeout=180):
+def run_under_pty(argv, env, timeout=180, preexec=None):
     """runs a command with a pseudo-terminal as stdin/stdout/stderr (the progress bar and everything that hangs off it only runs on a terminal)"""
     import pty, select, subprocess, time as _t
     m, s_ = pty.openpty()
-    p = subprocess.Popen(argv, stdin=s_, stdout=s_, stderr=s_, env=env, close_fds=True)
+    p = subprocess.Popen(argv, stdin=s_, stdout=s_, stderr=s_, env=env, close_fds=True, preexec_fn=preexec)
     os.close(s_)
     out, t_end = b'', _t.time() + timeout
     while True:
@@ -449,6 +449,50 @@ def c11_terminal_copy(run):
                 break
     finally:
         sb.close()
+
+
+def terminal_failed_delete(run):
+    """L4 on a terminal, as uid 65534: a destination symlink (to a file outside the destination, writable) stands where the source has a file;
+    its deletion fails (the destination folder is not writable); with a live progress bar the boss sends progress markers between the
+    commands - whatever they do to its waiting, nothing may be written through the surviving link and the run ends non-zero."""
+    from . import l3, l4
+    import shutil
+    if not os.path.exists(C.CLI_BIN) or not l4.nobody_can_run():
+        run.count('terminal-failed-delete:skipped'); return
+    def pre():
+        os.setgroups([]); os.setgid(65534); os.setuid(65534)
+    sb = l4.Sandbox()
+    try:
+        os.chmod(sb.dir, 0o755)
+        for trial in range(3 if run.tier != 'thorough' else 12):
+            base = os.path.join(sb.dir, f'tfd{trial}'); src, dst, out = base + '/src', base + '/dst', base + '/outside'
+            os.makedirs(src); os.makedirs(dst); os.makedirs(out); os.chmod(base, 0o777)
+            with open(out + '/precious', 'w') as f: f.write('precious')
+            os.utime(out + '/precious', ns=(10**18, 10**18)); os.chmod(out, 0o777); os.chmod(out + '/precious', 0o666)
+            with open(src + '/f', 'w') as f: f.write('from the source')
+            os.utime(src + '/f', ns=(2 * 10**18, 2 * 10**18))
+            for k_ in range(trial * 3):            # (more entries before it: the failing deletion is not always the only command)
+                with open(src + f'/e{k_}', 'w') as f: f.write('e')
+                with open(dst + f'/e{k_}', 'w') as f: f.write('e')
+                os.utime(src + f'/e{k_}', ns=(10**18, 10**18)); os.utime(dst + f'/e{k_}', ns=(10**18, 10**18))
+            os.symlink('../outside/precious', dst + '/f')
+            subprocess_chown = [os.path.join(dp, n) for dp, dn, fn in os.walk(base) for n in dn + fn]
+            os.chmod(dst, 0o555)
+            before = (open(out + '/precious').read(), os.stat(out + '/precious').st_mtime_ns, sorted(os.listdir(out)))
+            rc, outp = run_under_pty([C.CLI_BIN, src + '/', dst + '/', '--dest-entry-needs-deleting', 'delete'], sb.env({}), timeout=120, preexec=pre)
+            after = (open(out + '/precious').read(), os.stat(out + '/precious').st_mtime_ns, sorted(os.listdir(out)))
+            run.case(('terminal-failed-delete', trial), True, sample=dict(layer='L4', terminal=True, uid=65534, rc=rc, outside_untouched=before == after))
+            run.count(f'terminal-failed-delete:rc={rc}'); run.cov['traces_validated_against_impl'] += 1
+            os.chmod(dst, 0o755)
+            if before != after or rc == 0:
+                run.violation(dict(kind='oracle-failed-on-implementation', oracle='a failed deletion of a symlink is followed by no write through it, and the run ends non-zero (on a terminal, with progress markers between the commands)',
+                                   layer='L4', rc=rc, outside_before=list(before), outside_after=list(after), output_tail=outp[-400:].decode(errors='replace'),
+                                   how='the CLI under a pseudo-terminal as uid 65534; destination folder mode 555 holding a symlink f -> ../outside/precious (mode 666); the source holds a file f'))
+                break
+            shutil.rmtree(base, ignore_errors=True)
+    finally:
+        import subprocess as _sp9
+        _sp9.run(['chmod', '-R', 'u+rwx', sb.dir], capture_output=True); sb.close()
 
 
 def c11_concurrent_writer(run):
@@ -1424,6 +1468,22 @@ def check_C15(run):
         if len(keys_seen) != 4 or len(set(keys_seen)) != 4 or r['rc'] != 0 or any(len(k_) > 32 or not k_ or any(c_ not in '0123456789abcdef' for c_ in k_) for k_ in keys_seen):
             run.violation(dict(kind='oracle-failed-on-implementation', oracle='every doer launch gets a newly generated key (two runs with both doers remote: four launches, four distinct keys of at most 32 hex digits)',
                                layer='L4', launches=len(keys_seen), distinct_keys=len(set(keys_seen)), same_key_twice=len(set(keys_seen)) < len(keys_seen), rc=r['rc'], stderr=r['err'][-500:]))
+        # ---- a history: another version is there, deployment is permitted and "succeeds", yet the relaunch still finds the other version (the
+        # upload did not change what ssh launches): that doer, too, must never be handed a key, and the run fails
+        for dep_ in ('ok', 'force', 'prompt'):
+            sb.place_remote('other'); open(sb.log, 'w').close(); shutil.rmtree(sb.dir + '/dst', ignore_errors=True)
+            so_ = sb.dir + '/stdin-of-other-version.txt'
+            if os.path.exists(so_): os.unlink(so_)
+            r = l4.run_cli([sb.dir + '/src/', 'localhost:' + sb.dir + '/dst/', '--deploy', dep_], env=sb.env({'FAKE_SCP_NOOP': '1', 'RJRSSYNC_TEST_PROMPT_RESPONSE': '9:.*:Deploy'}), timeout=120)
+            seen_ = open(so_).read() if os.path.exists(so_) else ''
+            launches_ = sum(1 for l in sb.fake_log() if l[0] == 'ssh' and '--doer' in l[2])
+            run.case(('ineffective-upload', dep_), True, sample=dict(layer='L4', what='other version, deployment permitted, the upload changes nothing', deploy=dep_, launches=launches_, rc=r['rc'], other_version_stdin=seen_[:40]))
+            run.count(f'ineffective-upload:{dep_}:rc={r["rc"]}'); run.cov['traces_validated_against_impl'] += 1
+            if seen_.strip() or r['rc'] == 0:
+                run.violation(dict(kind='oracle-failed-on-implementation', oracle='a doer that announces another version is never written anything, in no launch of the run (also the relaunch after a deployment)', layer='L4',
+                                   deploy=dep_, launches=launches_, rc=r['rc'], written_to_the_other_version=seen_[:80], stderr=r['err'][-400:],
+                                   how='fake scp logs the upload and changes nothing; the remote binary is a script that announces another version and records its stdin'))
+                break
         # ---- the key as an *input*: the OS randomness the boss draws its key from is forced (LD_PRELOAD shim) to chosen values - leading zero
         # nibbles and bytes, all zero, all ones - and a same-version remote doer must be given exactly that value and the sync must work
         so = l4.build_force_key_shim(sb.dir)
@@ -1580,6 +1640,38 @@ def c14_linksz_sweep(run):
 
 
 
+def c14_link_bursts(run):
+    """the real encrypted link with a backlog: one end queues many messages at once (so the sending thread always finds several waiting) -
+    many small ones; the largest chunk again and again; and a message a few bytes below the largest directly in front of a largest one, for every
+    such distance (whatever a sender does with a backlog - batching, coalescing into one buffer - must not lose or reorder anything)"""
+    thorough = run.tier == 'thorough'
+    rng = run.rng
+    key = '%032x' % rng.getrandbits(128)
+    maxc = (run.extract_status.get('constants', {}) or {}).get('maxChunk') or 4 * 1024 * 1024
+    bursts = [[rng.choice([0, 1, 13, 100, 1000, 4096, 5000]) for _ in range(300)], [maxc] * 6, [100, maxc, 100, maxc, 5000, maxc]]
+    near = list(range(maxc - 200, maxc + 1, 4 if not thorough else 1))
+    for k_ in range(0, len(near), 5):
+        b_ = [maxc]
+        for a_ in near[k_:k_ + 5]:
+            b_ += [a_, maxc]
+        bursts.append(b_)
+    for half in (maxc // 2, maxc // 4):
+        bursts.append([half - 40 + 8 * j for j in range(10)] * 2)
+    lines = [f'linkburst {key} 120000 {len(b_)} ' + ' '.join(map(str, b_)) for b_ in bursts]
+    for b_, (ans, _) in zip(bursts, C.run_harness(lines, timeout=1800)):
+        run.case(('linkburst', tuple(b_[:12]), len(b_)), True, sample=None)
+        run.count('tcp-link:bursts'); run.cov['traces_validated_against_impl'] += 1
+        want = f'toDoer={len(b_)} of={len(b_)}'
+        if ans != want:
+            import re as _re6
+            m6 = _re6.match(r'toDoer=(\d+)', ans)
+            k6 = int(m6.group(1)) if m6 else None
+            run.violation(dict(kind='oracle-failed-on-implementation', oracle='messages queued in a burst cross the encrypted link intact, exactly once, in order', layer='link', payload_sizes=b_[:40], burst_length=len(b_),
+                               impl=ans, want=want, first_payload_size_not_delivered=b_[k6] if k6 is not None and k6 < len(b_) else None,
+                               payload_size_before_it=b_[k6 - 1] if k6 else None))
+            break
+
+
 def c14_small_capacity_syncs(run):
     """L4: whole syncs through the real channels with a tiny capacity (override hook), so that every sender is held back again and again
     while the boss consumes with try_recv / select: everything must arrive (destination == source) and the run must end"""
@@ -1694,6 +1786,7 @@ def check_C14(run):
             break
 
     c14_linksz_sweep(run)
+    c14_link_bursts(run)
 
     c14_small_capacity_syncs(run)
     # socket options (time-outs, non-blocking mode): none in the unchanged source (extracted; obligation C14_link_socket_plain).  If some appear,
@@ -2084,6 +2177,9 @@ def general_l2(run, n=None, label='general-traces'):
                     kids_s.append((nm + '/' + kid, 'D' if kid == 'sub' else l2.det_file(rng.choice(l2.TIMES), 0)))
                     if kid == 'sub' and rng.random() < 0.7: kids_s.append((nm + '/sub/h', l2.det_file(rng.choice(l2.TIMES), 0)))
                 top_d.append((nm, rng.choice(['L:D:X2f6f757473696465', 'L:U:N6e6f7768657265', l2.det_file(5, 3)])))
+            elif r_ < 0.65:     # source file (or link), destination a symlink to a file outside / to nothing, at the very same path: kept, the write would go through it
+                top_s.append((nm, rng.choice([l2.det_file(7, 0), l2.det_file(rng.choice(l2.TIMES), 0), 'L:U:N78'])))
+                top_d.append((nm, rng.choice(['L:F:X2f6f7574736964652f66', 'L:U:N6e6f7768657265', 'L:D:X2f6f757473696465'])))
             elif r_ < 0.75:     # equal folders
                 top_s.append((nm, 'D')); top_d.append((nm, 'D'))
                 kids_s.append((nm + '/f', l2.det_file(rng.choice(l2.TIMES), 0)))
@@ -2122,6 +2218,7 @@ def check_C02(run):
                        'non-trivial = the run sent at least one mutating command or ended in an error; distinct by request line')
     doer_model_stream(run)
     general_l2(run)
+    terminal_failed_delete(run)
     scs = corpus_l2('C02') + gen_mixed(rng, 2500 if not thorough else 25000)
     # deletions that fail: the barrier after the delete phase
     for _ in range(300 if not thorough else 3000):
@@ -2339,6 +2436,7 @@ def check_C07(run):
     scs += gen_mixed(rng, 800 if not thorough else 8000)
     l2_stream(run, scs, [('failure-reported', oracle_failure_reported), ('summary', oracle_summary), ('relay', oracle_relay)], 'faults',
               nontrivial=lambda r: r['faulty'] or any(is_mutating(c) for c in r['impl_r'].get('dest', [])))
+    terminal_failed_delete(run)
     # L4 real faults
     sb = l4.Sandbox()
     try:
@@ -2351,6 +2449,32 @@ def check_C07(run):
         l3.make_tree(src, [('', 'D'), ('keepme', 'F', b'k', 10**18)])
         l3.make_tree(dst, [('', 'D'), ('big', 'D'), ('big/hidden.txt', 'F', b'h', 10**18), ('big/seen.txt', 'F', b's', 10**18)])
         outcomes.append(('ENOTEMPTY', l4.run_cli([src + '/', dst + '/', '--filter', '-big/hidden.txt'], env=sb.env(), timeout=60), dst))
+        # entries that cannot be described (a fifo, a socket, a file dated before 1970), on the source and on the destination, with nothing to copy
+        # after them (an absent destination; an up-to-date tree; a second sync of a spec file): the run does not end 0
+        import socket as _sock
+        def special(dirp, what):
+            if what == 'fifo': os.mkfifo(os.path.join(dirp, 'pipe'))
+            elif what == 'socket':
+                s_ = _sock.socket(_sock.AF_UNIX); s_.bind(os.path.join(dirp, 'sock')); s_.close()
+            else:
+                open(os.path.join(dirp, 'old'), 'w').write('o'); os.utime(os.path.join(dirp, 'old'), ns=(-10**18, -10**18))
+        for what in ('fifo', 'socket', 'pre-1970'):
+            for shape in ('dest-absent', 'up-to-date', 'on-dest', 'in-sub-folder'):
+                base, src, dst = tree(f'odd-{what}-{shape}')
+                l3.make_tree(src, [('', 'D'), ('d', 'D'), ('d/e', 'D')])
+                if shape != 'dest-absent': l3.make_tree(dst, [('', 'D'), ('d', 'D'), ('d/e', 'D')])
+                try:
+                    special({'on-dest': dst, 'in-sub-folder': src + '/d/e'}.get(shape, src), what)
+                except OSError:
+                    run.count(f'undescribable:{what}:host-cannot-make-it'); continue
+                r_ = l4.run_cli([src + '/', dst + '/', '--dest-entry-needs-deleting', 'delete'], env=sb.env(), timeout=60)
+                run.case(('undescribable', what, shape), True, sample=dict(layer='L4', entry=what, shape=shape, rc=r_['rc']) if shape == 'dest-absent' else None)
+                run.count(f'undescribable:{what}:{shape}:rc={r_["rc"]}'); run.cov['traces_validated_against_impl'] += 1
+                if r_['rc'] == 0 or r_['timeout']:
+                    run.violation(dict(kind='oracle-failed-on-implementation', oracle='an entry that cannot be described (and so cannot be mirrored) makes the run end non-zero, also when nothing is left to copy after it', layer='L4',
+                                       entry=what, shape=shape, rc=r_['rc'], stdout=r_['out'][-300:], stderr=r_['err'][-300:],
+                                       tree=f'source folders d, d/e; {"no destination" if shape == "dest-absent" else "the same folders on the destination"}; a {what} ' + {'on-dest': 'in the destination root', 'in-sub-folder': 'in the source folder d/e'}.get(shape, 'in the source root')))
+                    break
         # unreadable source entry
         base, src, dst = tree('unreadable')
         l3.make_tree(src, [('', 'D'), ('sub', 'D'), ('sub/f', 'F', b'f', 10**18)])
@@ -3405,7 +3529,7 @@ def check_C19(run):
     from . import l4
     d = l3.scratch(); sb = l4.Sandbox()
     try:
-        lite = open(C.CLI_BIN, 'rb').read()
+        lite = bytearray(open(C.CLI_BIN, 'rb').read()); lite[0xF] = 7; lite = bytes(lite)      # (a padding byte of e_ident marks the 'aarch64' binary: it runs all the same, and is told apart from the boss's own build)
         ent = lambda t, data: struct.pack('<Q', len(t)) + t + struct.pack('<Q', len(data)) + data
         table = b'\x00' + struct.pack('<Q', 2) + ent(b'aarch64-unknown-linux-musl', lite) + ent(b'x86_64-pc-windows-msvc', b'MZ-not-a-real-binary')
         open(os.path.join(d, 'table'), 'wb').write(table)
@@ -3429,6 +3553,39 @@ def check_C19(run):
                 if lc is None or lc.returncode != 0 or lc.stdout != lp.stdout:
                     problem = f'hop {hop}: the deployed binary does not report the same embedded binaries as its parent: parent {lp.stdout[-300:]!r}, child {(lc.stdout if lc else "")[-300:]!r}'; break
                 boss_bin = child
+            # two remotes of different platforms in ONE run (source and destination both remote, both needing a deployment): each must be given
+            # the binary it is given when it is deployed to on its own
+            import glob as _glob9, hashlib as _hl9
+            def deployed_hashes():
+                return {os.path.basename(os.path.dirname(os.path.dirname(f_))).split('-', 1)[1]: _hl9.sha1(open(f_, 'rb').read()).hexdigest() for f_ in _glob9.glob(sb.remote + '-*/rjrssync/rjrssync')}
+            def wipe():
+                for d_ in _glob9.glob(sb.remote + '-*'): shutil.rmtree(d_, ignore_errors=True)
+                shutil.rmtree(sb.dir + '/dst', ignore_errors=True)
+            if not problem:
+                envm = sb.env({'FAKE_UNAME_MAP': '127.0.0.1=aarch64', 'FAKE_PER_HOST': '1'})
+                single = {}
+                for host in ('localhost', '127.0.0.1'):
+                    wipe()
+                    subprocess.run([parent, sb.dir + '/src/', host + ':' + sb.dir + '/dst/', '--deploy', 'ok'], capture_output=True, text=True, env=envm, timeout=180)
+                    single.update(deployed_hashes())
+                for a_, b_ in (('localhost', '127.0.0.1'), ('127.0.0.1', 'localhost')):
+                    wipe()
+                    r2 = subprocess.run([parent, a_ + ':' + sb.dir + '/src/', b_ + ':' + sb.dir + '/dst/', '--deploy', 'ok'], capture_output=True, text=True, env=envm, timeout=240)
+                    both = deployed_hashes()
+                    run.case(('deploy-two-platforms', a_, b_), True, sample=dict(layer='L4', what='two remotes of different platforms in one run', source_host=a_, dest_host=b_, rc=r2.returncode, same_as_single={h_: both.get(h_) == single.get(h_) for h_ in single}))
+                    run.count(f'deploy-two-platforms:rc={r2.returncode}'); run.cov['traces_validated_against_impl'] += 1
+                    marks = {}
+                    for f_ in _glob9.glob(sb.remote + '-*/rjrssync/rjrssync'):
+                        marks[os.path.basename(os.path.dirname(os.path.dirname(f_))).split('-', 1)[1]] = open(f_, 'rb').read(16)[0xF]
+                    if marks.get('127.0.0.1') != 7 or marks.get('localhost') != 0:
+                        own_a, own_n = marks.get('127.0.0.1') == 7, marks.get('localhost') == 0
+                        problem = ('two remotes in one run (source %s, destination %s): the host claiming aarch64 was given %s binary, the native host %s (mark bytes %s)'
+                                   % (a_, b_, 'its own' if own_a else "ANOTHER platform's", 'its own' if own_n else "ANOTHER platform's", marks))
+                        break
+                    if r2.returncode != 0 or len(single) != 2 or any(both.get(h_) != single[h_] for h_ in single):
+                        problem = (f'two remotes in one run ({a_} native, 127.0.0.1 claiming aarch64; source {a_}, destination {b_}): status {r2.returncode}; the binary placed on each host '
+                                   f'{"equals" if all(both.get(h_) == single.get(h_) for h_ in single) else "DIFFERS from"} the one placed there by a run of its own: {dict((h_, both.get(h_) == single.get(h_)) for h_ in single)}; {r2.stderr[-200:]}')
+                        break
             run.case(('deploy-chain',), True, sample=dict(layer='L4', what='cross-platform deployment chain (embedded lite binary upgraded and deployed, twice)', hops=hops)); run.count('deploy-chain:hops', len(hops))
             if problem:
                 run.violation(dict(kind='oracle-failed-on-implementation', oracle='the binary that deployment places on a remote starts, passes the handshake, syncs, reports the same embedded binaries as its parent and can deploy in turn', layer='L4',
